@@ -58,6 +58,15 @@ from .exceptions import CsrfFailureException
 from .template_context import TemplateContext
 from .utils import is_ajax, jsonify, jsonify_no_content
 
+def clear_timing_reference(mf: models.MediaFile) -> None:
+    """
+    Remove the stream's timing reference if it names the file that is about to be deleted
+    """
+    ref = mf.stream.timing_reference
+    if ref is not None and ref.media_name == mf.name:
+        mf.stream.timing_reference = None
+
+
 class UploadHandler(RequestHandlerBase):
     decorators = [uses_stream, login_required(permission=models.Group.MEDIA)]
 
@@ -184,6 +193,7 @@ class MediaInfo(HTMLHandlerBase):
                 status = 404
         if result["error"] is None:
             result.update(mf.toJSON())
+            clear_timing_reference(mf)
             models.db.session.delete(mf)
             models.db.session.commit()
             result["deleted"] = mfid
@@ -237,6 +247,10 @@ class EditMedia(HTMLHandlerBase):
     @csrf_token_required(service='files', next_url=next_url)
     def post(self, spk: int, mfid: int) -> flask.Response:
         mf = current_media_file
+        if mf.representation is None:
+            flask.flash(f'File {mf.name} needs to be indexed before it can be edited')
+            return flask.redirect(
+                flask.url_for('media-info', spk=spk, mfid=mfid))
         current_values: dict[str, str | int] = {
             'track_id': mf.track_id,
             'lang': mf.representation.lang,
@@ -324,6 +338,7 @@ class DeleteMedia(DeleteModelBase):
             "title": current_media_file.name,
             "stream": current_stream.title,
         }
+        clear_timing_reference(current_media_file)
         models.db.session.delete(current_media_file)
         models.db.session.commit()
         return result
